@@ -141,8 +141,9 @@ CHECKS.update({
                  "R-GUARD " + G + "; R-CFORM " + CF + "; " + BP + " extended by a digit-contribution (lane-sum) domain with if-conversion; R-ERRFLOW"),
  "C14": _partial("C14", "announced size = gridDistance + 1 (errors passed on, nothing stored); gridPathCells writes out[n] only for n <= distance of the same callee's result, also on "
                  "the failing exits; resolution-mismatch rejection; a failing localIjkToCell makes gridPathCells fail (R-ERRFLOW); the rotation tables / kernels / cube conversion the "
-                 "interpolation relies on (T14, T20, T21, T22); localIjkToCell rejects coordinates more than one base cell away before the base-cell lookup (R-UNITVEC).",
-                 "contiguity / shortest path (floating interpolation).", "R-CFORM " + CF + "; R-BW " + BW + "; R-GUARD " + G + "; R-ERRFLOW; R-TAB T14,T20,T21,T22 " + TAB + "; R-UNITVEC range-test/typestate rule"),
+                 "interpolation relies on (T14, T20, T21, T22); localIjkToCell rejects coordinates more than one base cell away before the base-cell lookup (R-UNITVEC); "
+                 "the cube-rounding helper of the interpolation converts its three coordinates alike, each to the nearest integer (R-SYM round3).",
+                 "contiguity / shortest path (floating interpolation).", "R-CFORM " + CF + "; R-BW " + BW + "; R-GUARD " + G + "; R-ERRFLOW; R-TAB T14,T20,T21,T22 " + TAB + "; R-UNITVEC range-test/typestate rule; R-SYM sibling-agreement rule over the def-use chains of the three coordinates"),
  "C15": _partial("C15", "out[i] only where i < size, E_MEMORY_BOUNDS when the capacity is reached; flags outside {0,1,2,3} => E_OPTION_INVALID on both experimental entry points; "
                  "containment-mode enum/mask witnesses; in each of the four containment modes every cell iterStepPolygonCompact emits has passed, on every path, the success edge of a test "
                  "that the mode admits, applied to that cell's own geometry (R-GATE).",
@@ -151,10 +152,11 @@ CHECKS.update({
                  "without double free; a local vertex graph is destroyed on every path once initialised; cellsToLinkedMultiPolygon destroys the result before returning an error; "
                  "a hole that cannot be placed is freed and the hole loop is only left after every collected hole was visited; every struct type the builders allocate is freed in the call "
                  "tree of destroyLinkedMultiPolygon / destroyVertexGraph; two structural necessary conditions of the hole placement (loop/bounding-box pairing, arrays forwarded with their length); "
-                 "the tolerance with which edge end points are matched is a constant below a quarter of the average res-15 edge (from the library's own edge-length table), so distinct vertices are never identified.",
+                 "the tolerance with which edge end points are matched is a constant below a quarter of the average res-15 edge (from the library's own edge-length table), so distinct vertices are never identified; "
+                 "a loop taken from the candidate list is never tested for containment against itself (R-SYM selfexcl).",
                  "the outline itself: one polygon per component, winding, closedness, enclosed area (depends on bit-level agreement of vertex coordinates and a float hash).",
                  "R-ALLOC allocation typestate; R-OWN ownership-protocol rules over LLVM IR (incl. L6: no object is handed to addNewLinkedPolygon twice; L7: the hole loop visits every collected hole); "
-                 "R-SIB pairing rules (a loop keeps the bounding box it was tested with; candidate arrays are forwarded with their length)"),
+                 "R-SIB pairing rules (a loop keeps the bounding box it was tested with; candidate arrays are forwarded with their length); R-SYM self-exclusion rule (edge dominance of a pointer comparison over the containment call)"),
  "C19": _partial("C19", "maxFaceCount = 5 for a pentagon else 2; getIcosahedronFaces initialises and writes only slots below that count (relation facts incl. the insertion loop); "
                  "face adjacency tables (T5, T9); the dispatch between the methods: a pentagon at an even (Class II) resolution never reaches a vertex method, an odd-resolution "
                  "pentagon never the hexagon method nor the recursion, a hexagon never the pentagon method (guard rows of kind reach).",
